@@ -48,7 +48,7 @@ CONC = ['none', 'poll', 'queued', 'during', 'all']
 CONV = ['none', 'raise']
 AU = [True, False]
 TR = [None, 'polling', 'websocket']
-SRV = ['T', 'A', 'H']      # H: the asyncio server behind the real aiohttp adapter
+SRV = ['T', 'A', 'H', 'N']  # H / N: the asyncio server behind the real aiohttp / tornado adapter
 
 
 def frame_value(name):
@@ -413,7 +413,8 @@ def run_nodriver(rec, spec):
 
 def plan(tier, seed):
     rng = gen.mkrng('c06', seed)
-    dims = [len(FRAMES), len(FRAMES), len(CLOSE_AT), 2, len(CONC), 2, 3, 3]
+    dims = [len(FRAMES), len(FRAMES), len(CLOSE_AT), 2, len(CONC), 2, 3,
+            len(SRV)]
     allc = list(itertools.product(*[range(n) for n in dims]))
     if tier == 'thorough':
         chosen = allc
@@ -434,13 +435,13 @@ def plan(tier, seed):
     shards = [{'cells': chosen[i::n], 'all': tier == 'thorough'}
               for i in range(n)]
     shards[1]['compete'] = [
-        {'compete': [srv, b_when, b_act, a_end]} for srv in ('T', 'A', 'H')
+        {'compete': [srv, b_when, b_act, a_end]} for srv in SRV
         for b_when in ('before-probe', 'after-probe', 'probes-early')
         for b_act in ('wrong-first', 'close', 'probe-then-wrong',
                       'probe-then-close', 'probe-then-upgrade')
         for a_end in ('client-close', 'disconnect')]
     shards[2]['compete'] = [
-        {'competefail': [srv, ap, ah, bp, bh]} for srv in ('T', 'A', 'H')
+        {'competefail': [srv, ap, ah, bp, bh]} for srv in SRV
         for ap in (0, 1) for ah in ('wrong', 'close')
         for bp in (0, 1) for bh in ('wrong', 'close')]
     shards[0]['nodriver'] = [{'srv': x, 'when': w} for x in SRV[:2]
